@@ -171,17 +171,22 @@ class C15(Spec):
     technique = ('Lean 4 proof by induction over byte strings, decimal digit lists and item sequences about a model of String_Show/String_Look, '
                  '"%li" printing/scanning and the position accounting of scan_from_with; escape tables, delimiters and the reader\'s control-flow flag '
                  'regenerated from the source each run; differential check against the real library (String and File sinks) with a direct C oracle')
-    level_text = ('Theorems C15_string_roundtrip / C15_int_roundtrip / C15_sequence_roundtrip: for every NUL-free byte string, every int64 and every '
-                  'sequence of such values with separators, at every start position, from a String and from a File, the model of look/scan reads back '
-                  'exactly the value that the model of show/print wrote and stops exactly at the end of the written text, whatever follows (for an '
-                  'integer: anything that does not continue the number). The escape tables and the reader\'s `continue` are extracted from '
-                  'src/String.c on every run and the theorems are re-checked against them; the model is tied to the real functions by running '
-                  'tens of thousands of values and sequences (all 255 byte values, boundary integers, doubles over the whole exponent range) on both.')
-    level_note = ('partial for Float: "%f"/"%lf" are libc conversions; there is no theorem about them — an exact executable model of both is compared with '
-                  'the implementation on every run and the direct oracle checks |read - written| <= 0.5e-6 + half an ulp and that the shown text is stable. '
-                  'Trusted: Lean kernel; the model of scanf "%li"/"%c"/literal matching and of printf "%li" (validated against glibc by the correspondence runs, '
-                  'not proved); translate/g_text.py; harness/driver comparison (testing). Outside: "%%" inside a scanned sequence (known finding '
-                  'KF-C15-pct-advance), non-"l" integer specifications into a long (F21), non-finite doubles, reading at a position beyond the end of a String.')
+    level_text = ('Theorems C15_string_roundtrip / C15_int_roundtrip / C15_sequence_roundtrip / C15_format_roundtrip / C15_float_consumed: for every '
+                  'NUL-free byte string, every int64 and every sequence of Strings, Ints, Floats and separators, written at every start position of a '
+                  'String or a File, the model of look_from / scan_from_with reads back exactly the value that the model of show_to / print_to_with wrote '
+                  '(for a Float: the double nearest to the six-decimal text written) and stops exactly at the end of the written text, whatever follows '
+                  '(for a number: anything that does not continue it); the returned position equals the writer\'s and a File\'s stream moves by exactly '
+                  'the characters written; stated on segment lists and on the raw format string as cut by the two scanners. The escape tables, delimiter '
+                  'bytes, the reader\'s `continue`, the conversion-character sets and the `%%` advance are extracted from the source on every run and the '
+                  'theorems are re-checked against them; the model is tied to the real functions by running tens of thousands of values and sequences '
+                  '(all 255 byte values, boundary integers, doubles over the whole exponent range) on both.')
+    level_note = ('partial for Float: "%f"/"%lf" are libc conversions; that %lf consumes exactly what %f wrote is proved (C15_float_consumed), that the value '
+                  'read back equals the original within the printed precision is NOT proved (C15_float_value_statement is a def, not a theorem) — an exact '
+                  'executable model of both conversions is compared with the implementation on every run and the direct oracle checks '
+                  '|read - written| <= 0.5e-6 + half an ulp and that the shown text is stable. Trusted: Lean kernel; the model of scanf "%li"/"%ld"/"%lf"/"%c"/'
+                  'literal matching and of printf "%li"/"%f"/"%c" (validated against glibc by the correspondence runs, not proved); translate/g_text.py; '
+                  'harness/driver comparison (testing). Outside: "%%" inside a scanned sequence (known finding KF-C15-pct-advance), non-"l" integer '
+                  'specifications into a long (F21), non-finite doubles, reading at a position beyond the end of a String.')
     rule = ('op files of round trips (R: values and separators written at a start position of a String / File sink by show_to or by one print_to_with, '
             'then read back by look_from / one scan_from_with) and of reads of arbitrary text (K). Generators: every byte value 1..255 alone and in one string, '
             'random strings biased to quotes, backslashes, escape letters, control and high bytes, lengths 0..20000; boundary and random int64; doubles from '
@@ -192,7 +197,7 @@ class C15(Spec):
     trusted_base = ('translate/g_text.py generator Text (regular expressions over String_Show / String_Look / Num.c / Show.c)',
                     'harness/h_text.c + lean/Driver/Text.lean (correspondence is testing)',
                     'glibc printf "%li" "%f" "%c" and scanf "%li" "%ld" "%lf" "%c" "%n", literal matching: modelled (Cello/Text.lean), validated by the runs, not verified',
-                    'the format string is modelled as a list of segments (the scanner that cuts it is property C14)')
+                    'arguments are modelled as values (Cello object headers, c_int / c_float / c_str dispatch are properties C08 / C19)')
     assumptions = ('Strings are NUL-free C strings; Ints are int64; Floats are finite doubles',
                    'text following a written integer does not start with a digit (nor with x/X after a lone 0 read with %li); text following a written Float does not start with a digit or e/E',
                    'a separator read from a File that ends in white space is not followed by white space (scanf would swallow it)',
@@ -217,7 +222,7 @@ class C15(Spec):
                 lines.append(f'R {src} 7 {mode} s={hx(allb[::-1])} t=2c s={hx(allb)}')
         chunk('bytes', lines)
         # (b) single values
-        n1 = (10000 if quick else 150000) * boost
+        n1 = (10000 if quick else 100000) * boost
         lines = []
         for _ in range(n1):
             src = rng.choice('SF'); pm = rng.random() < 0.5
@@ -229,12 +234,12 @@ class C15(Spec):
             lines.append(f"R {src} {rng.choice(START)} {'print' if pm else 'show'} {it}{z}")
         chunk('single', lines)
         # (c) sequences, in contract
-        n2 = (10000 if quick else 150000) * boost
+        n2 = (10000 if quick else 100000) * boost
         chunk('seq', [sequence(rng, True) for _ in range(n2)])
         # (d) sequences out of contract (correspondence only) and arbitrary text
-        n3 = (5000 if quick else 80000) * boost
+        n3 = (5000 if quick else 50000) * boost
         chunk('adv', [sequence(rng, False, 6) for _ in range(n3)])
-        n4 = (15000 if quick else 200000) * boost
+        n4 = (15000 if quick else 150000) * boost
         chunk('look', [look_op(rng) for _ in range(n4)])
         # (e) long strings
         lines = []
